@@ -73,11 +73,54 @@ CHECKS = {
         "For each generated program the hy2py text must compile and reproduce value, exact effect log and escaping exception of the AST execution.",
         "CPython's compile/exec are the reference for both artefacts.",
         "progs", "2/C14"),
+    "C13": (
+        "metamorphic: generated scoping-heavy sources (nonlocal/global lists, comprehension leak lists, let) and Engine-A programs compiled in fresh interpreter processes under several PYTHONHASHSEED values; AST dump and canonical code-object dump must be identical",
+        "Each batch of sources is compiled under 3 (quick) / 6 (thorough) hash seeds in separate processes and the sha256 of ast.dump(include_attributes=True) "
+        "and of the code objects compared. Sampled over sources; the hash seed is the schedule the check owns.",
+        "Code objects are compared field-wise (marshal reference flags and CPython's own frozenset constant order are not Hy's doing).",
+        "progs", "2/C13"),
+    "C17": (
+        "Engine-A programs printed one subform per line with a raising form planted at every evaluated leaf position (plain, through a pass-through macro, inside a macro template); oracle = line recorded by the generator vs. innermost traceback frame of the program's file",
+        "All leaf positions of each generated program are tried; the reference interpreter decides whether the raising form is reached and the exception escapes; "
+        "the traceback line must be the line of the raising form (of the macro call for template-made code).",
+        "Trusts vf/progs.py for reachability and the renderer's line bookkeeping.",
+        "progs", "2/C17"),
+    "C22": (
+        "structurally generated numeric literal texts (Python grammar, Hy's documented extensions, near misses); differential against ast.literal_eval/int/float/complex, type- and bit-exact; near misses must read as one Symbol",
+        "Tens of thousands of literal texts per run in three classes; expected values come from CPython or from construction (separators removed), never from Hy.",
+        "CPython defines the value of a Python numeric literal; ASCII digits only.",
+        "literals", "2/C22"),
+    "C23": (
+        "generated string/bytes/bracket-string literals from pieces (every valid and invalid escape, raw newlines, non-ASCII, delimiters); differential against CPython's evaluation of the equivalent literal with warnings as errors",
+        "A value from CPython => Hy must read one String/Bytes of the same type and value; an invalid escape or SyntaxError => LexException. Bracket strings: "
+        "value by construction (one leading newline removed), delimiter recorded in brackets.",
+        "CPython 3.12's tokenizer is the reference; octal escapes above \\377 are not generated for bytes.",
+        "literals", "2/C23"),
+    "C24": (
+        "f-string structures rendered twice (Hy and Python) from one tree and evaluated in the same environment; differential on the resulting string or exception type; malformed variants must raise a SyntaxError subclass",
+        "Covers literal parts, conversions, the = form, nested format specs (depth <= 2), nested f-strings, plain and bracketed f-strings; sampled.",
+        "CPython 3.12 (PEP 701) is the reference; both renderings come from one structure built by vf/props/c24.py.",
+        "literals", "2/C24"),
+    "C30": (
+        "round trip on models read from Engine-B texts and on position-free constructor copies: hy.eval of (quote m) must equal m node by node (type, value, brackets, conversion, expression, is_tstring)",
+        "Thousands of models of every syntax form per run, including FString/FComponent, t-strings, bracket strings and symbols that look special; sampled.",
+        "Models come from the reader (C20 checks the reader against independently built models).",
+        "textgen", "2/C30"),
+    "C39": (
+        "histories of 1..3 hy.eval calls on shared namespace dictionaries with a prior 'hy' entry absent / sentinel / None / real module, clean, with an injected exception at every effect point, or failing at compile time; invariant after every call + reference interpreter for the value",
+        "After every call, normal or raising, each dictionary passed must have its 'hy' entry exactly as before (presence and identity); the returned value is "
+        "compared with the reference interpreter. Single faults are exhaustive for the first call of a history, histories are sampled.",
+        "Trusts vf/progs.py for the returned value.",
+        "progs", "2/C39"),
 }
 
 LEVELS = {"C09": "fault_enumeration"}
 
-NOT_YET = "check not built yet in this session (planned in DESIGN.md section 2); not claimed"
+NOT_YET = "check not built yet (planned in DESIGN.md section 2); not claimed"
+NOT_CLAIMED = {
+    "C25": "a check module exists (vf/props/c25.py) but its failures on the unchanged tree are not triaged yet (hy.repr of bracket strings and f-string parts, "
+           "DESIGN.md section 4/8); not claimed until each is either repaired or recorded as a known finding",
+}
 
 
 def main():
@@ -100,7 +143,7 @@ def main():
                 "technique": "property-based testing: " + tech,
             })
         else:
-            na.append({"property_id": pid, "reason": NOT_YET})
+            na.append({"property_id": pid, "reason": NOT_CLAIMED.get(pid, NOT_YET)})
     man = {
         "version": 1,
         "setup_cmd": "sh tools/setup.sh",
@@ -117,8 +160,10 @@ def main():
              "kind_free_text": "Engine A: JSON program IR, Hypothesis generator (vf/proggen.py), renderer to Hy, reference interpreter with series-parallel effect traces, fault-injecting harness"},
             {"name": "names", "path": "vf/props/c32.py", "serves_properties": ["C32", "C33"],
              "kind_free_text": "code-point enumeration and Hypothesis name strategy"},
-            {"name": "textgen", "path": "vf/textgen.py", "serves_properties": ["C18", "C19", "C20", "C21", "C25", "C30"],
+            {"name": "textgen", "path": "vf/textgen.py", "serves_properties": ["C18", "C19", "C20", "C21", "C30"],
              "kind_free_text": "Engine B: Hypothesis-drawn syntax trees rendered to Hy text with independently built expected models, spans and open-construct intervals"},
+            {"name": "literals", "path": "vf/props/c22.py", "serves_properties": ["C22", "C23", "C24"],
+             "kind_free_text": "per-module structural generators of literal texts (vf/props/c22.py, c23.py, c24.py) with CPython as the reference evaluator"},
         ],
         "checks": checks,
         "notes": "All checks: ./check <ID> <quick|thorough> [--replay PATH]; VERIF_SEED honoured; exit 2 = harness error. "
